@@ -119,15 +119,16 @@ func judgeC03(key string, o *drive.Outcome) h.Result {
 	if skipFE(&r, o) {
 		return r
 	}
-	if !o.SrcValid && o.Status == "accepted" && len(o.OutErrs) == 0 && o.NCmpEmit > 0 {
+	if !o.SrcValid && o.Status == "accepted" && len(o.OutErrs) == 0 && o.NCmpEmit+o.NCmpDecl > 0 {
 		// not Go source, but accepted and lowered to valid Go (a language extension): type the syntax the builder holds
 		r.Count("emitted_syntax_type_comparisons", int64(o.NCmpEmit))
+		r.Count("lowered_declared_object_comparisons", int64(o.NCmpDecl))
 		r.NonTrivial = true
-		if len(o.EmitDiffs) > 0 {
+		if diffs := append(append([]drive.Diff{}, o.EmitDiffs...), o.TypeDiffs...); len(diffs) > 0 { // TypeDiffs: declared objects
 			r.Verdict = h.Violated
-			r.Kind = "emitted-type: " + diffStr(o.EmitDiffs[0])
+			r.Kind = "emitted-type: " + diffStr(diffs[0])
 			var ds []string
-			for _, d := range o.EmitDiffs {
+			for _, d := range diffs {
 				ds = append(ds, diffStr(d))
 			}
 			r.Detail = "input is not valid Go but is accepted and lowered; reported type differs from go/types' type of the syntax the builder holds:\n" + firstN(ds, 4)
